@@ -29,6 +29,7 @@ def swarm(prop, r, tier):
     cfg["names"] = R.pick(["plain", "plain", "fancy"])
     cfg["clock"] = R.pick(["mono", "stall", "back", "jump"])
     cfg["warn_error"] = R.chance(0.25)
+    cfg["neg_source_rs"] = R.chance(0.04)
     # a random subset of kinds is disabled (swarm)
     kinds = list(KINDS)
     for k in R.sample(ALL_CHILD_KINDS, R.randint(0, 4)):
